@@ -842,6 +842,8 @@ class Interp(object):
             return k
         if isinstance(k, tuple) and all(isinstance(x, (str, int)) for x in k):
             return k
+        if self._unhashable(k):
+            self.raise_('TypeError', 'unhashable type')      # a list / dict / set used as a dict key
         raise Undecided('non-concrete dict key %r' % (k,))
 
     def star_items(self, v):
